@@ -102,15 +102,15 @@ theorem copyToAllF_protects (c : UCfg) (sh : Shape) (nw : Item) : ∀ ex : List 
     refine ⟨fun hx => by simp [hx], ?_⟩
     exact copyToAllF_protects c sh nw xs
 
-/-- the delete phase: unwritable elements stay in place in the caller's array, and a delete that succeeded met no
-    unwritable element -/
+/-- the delete phase: unwritable elements stay in place in the caller's array, and a delete that succeeded has kept
+    every unwritable element in its result (in the member as written there was none) -/
 theorem deleteFilteredF_protects (c : UCfg) (sh : Shape) (f : Filter) :
     ∀ (ex ip out : List Item) (ok : Bool), deleteFilteredF.go c sh true f ex = .ok (ip, out, ok) →
-      Prot sh ex ip ∧ (ok = true → ex.all (writeAllowed sh) = true)
+      Prot sh ex ip ∧ (ok = true → ∀ e ∈ ex, writeAllowed sh e = false → e ∈ out)
   | [], ip, out, ok, h => by
     simp only [deleteFilteredF.go, Outcome.ok.injEq, Prod.mk.injEq] at h
     obtain ⟨rfl, _, _⟩ := h
-    exact ⟨trivial, fun _ => rfl⟩
+    exact ⟨trivial, fun _ e he => (by cases he)⟩
   | x :: xs, ip, out, ok, h => by
     simp only [deleteFilteredF.go, Bool.and_true] at h
     by_cases hw : writeAllowed sh x = true
@@ -127,18 +127,45 @@ theorem deleteFilteredF_protects (c : UCfg) (sh : Shape) (f : Filter) :
           rw [hrec] at h
           have ih := deleteFilteredF_protects c sh f xs ip' out' ok' hrec
           simp only [Outcome.ok.injEq, Prod.mk.injEq] at h
-          obtain ⟨rfl, _, rfl⟩ := h
-          exact ⟨⟨fun hx => (by rw [hw] at hx; cases hx), ih.1⟩, fun hok => by simp [hw, ih.2 hok]⟩
+          obtain ⟨rfl, rfl, rfl⟩ := h
+          refine ⟨⟨fun hx => (by rw [hw] at hx; cases hx), ih.1⟩, fun hok e he hwe => ?_⟩
+          rcases List.mem_cons.mp he with rfl | he'
+          · rw [hw] at hwe; cases hwe
+          · have := ih.2 hok e he' hwe
+            split
+            · exact List.mem_cons_of_mem _ this
+            · exact this
     · have hw' : writeAllowed sh x = false := by simpa using hw
       simp only [hw', Bool.not_false, if_true] at h
-      cases hrec : deleteFilteredF.go c sh true f xs with
-      | panic s => rw [hrec] at h; simp at h
-      | ok t =>
-        obtain ⟨ip', out', ok'⟩ := t
-        rw [hrec] at h
-        simp only [Outcome.ok.injEq, Prod.mk.injEq] at h
-        obtain ⟨rfl, _, rfl⟩ := h
-        exact ⟨⟨fun _ => rfl, (deleteFilteredF_protects c sh f xs ip' out' ok' hrec).1⟩, fun hok => (by cases hok)⟩
+      by_cases hds : c.deleteStrict = true
+      · simp only [hds, if_true] at h
+        cases hrec : deleteFilteredF.go c sh true f xs with
+        | panic s => rw [hrec] at h; simp at h
+        | ok t =>
+          obtain ⟨ip', out', ok'⟩ := t
+          rw [hrec] at h
+          simp only [Outcome.ok.injEq, Prod.mk.injEq] at h
+          obtain ⟨rfl, _, rfl⟩ := h
+          exact ⟨⟨fun _ => rfl, (deleteFilteredF_protects c sh f xs ip' out' ok' hrec).1⟩, fun hok => (by cases hok)⟩
+      · simp only [hds, Bool.false_eq_true, if_false] at h
+        cases hm : hitOf c sh f x with
+        | panic s => rw [hm] at h; simp at h
+        | ok hit =>
+          rw [hm] at h
+          simp only at h
+          cases hrec : deleteFilteredF.go c sh true f xs with
+          | panic s => rw [hrec] at h; simp at h
+          | ok t =>
+            obtain ⟨ip', out', ok'⟩ := t
+            rw [hrec] at h
+            have ih := deleteFilteredF_protects c sh f xs ip' out' ok' hrec
+            simp only [Outcome.ok.injEq, Prod.mk.injEq] at h
+            obtain ⟨rfl, rfl, rfl⟩ := h
+            refine ⟨⟨fun _ => rfl, ih.1⟩, fun hok e he hwe => ?_⟩
+            simp only [Bool.and_eq_true] at hok
+            rcases List.mem_cons.mp he with rfl | he'
+            · exact List.mem_cons_self
+            · exact List.mem_cons_of_mem _ (ih.2 hok.1 e he' hwe)
 
 theorem mergeItem_unwritable (sh : Shape) (s2 : List Item) (a : Item) (hw : writeAllowed sh a = false) :
     mergeItem sh true s2 a = a := by
@@ -160,7 +187,8 @@ theorem map_mergeItem_protects (sh : Shape) (s2 : List Item) : ∀ s1 : List Ite
     that array, or a fresh list in which case no element was unwritable -/
 theorem deletePhaseF_protects (c : UCfg) (sh : Shape) (ex : List Item) (fd : Option Filter)
     (orig cur : List Item) (aliased ok0 : Bool) (h : deletePhaseF c sh true ex fd = .ok (orig, cur, aliased, ok0)) :
-    Prot sh ex orig ∧ (aliased = true → cur = orig) ∧ (aliased = false → ex.all (writeAllowed sh) = true) := by
+    Prot sh ex orig ∧ (aliased = true → cur = orig) ∧
+      (aliased = false → ∀ e ∈ ex, writeAllowed sh e = false → e ∈ cur) := by
   unfold deletePhaseF at h
   cases fd with
   | none =>
@@ -193,20 +221,19 @@ theorem deletePhaseF_protects (c : UCfg) (sh : Shape) (ex : List Item) (fd : Opt
 /-- membership form used for the returned list: if the current list is not the caller's array, nothing was
     unwritable -/
 theorem mem_of_phase (sh : Shape) {ex orig cur out : List Item} {aliased : Bool}
-    (hp : Prot sh ex orig) (ha : aliased = true → cur = orig) (hn : aliased = false → ex.all (writeAllowed sh) = true)
+    (hp : Prot sh ex orig) (ha : aliased = true → cur = orig)
+    (hn : aliased = false → ∀ e ∈ ex, writeAllowed sh e = false → e ∈ cur)
     (hout : Prot sh cur out) : ∀ e ∈ ex, writeAllowed sh e = false → e ∈ out := by
   intro e he hw
   cases aliased with
   | true =>
     have := ha rfl; subst this
     exact Prot.mem sh hout e (Prot.mem sh hp e he hw) hw
-  | false =>
-    have := hn rfl
-    rw [List.all_eq_true] at this
-    rw [this e he] at hw; cases hw
+  | false => exact Prot.mem sh hout e (hn rfl e he hw) hw
 
 theorem tailF_protects (c : UCfg) (sh : Shape) {ex orig cur : List Item} {aliased : Bool} (ok0 : Bool) (nw : List Item)
-    (hp : Prot sh ex orig) (ha : aliased = true → cur = orig) (hn : aliased = false → ex.all (writeAllowed sh) = true) :
+    (hp : Prot sh ex orig) (ha : aliased = true → cur = orig)
+    (hn : aliased = false → ∀ e ∈ ex, writeAllowed sh e = false → e ∈ cur) :
     Prot sh ex (tailF c sh true orig cur aliased ok0 nw).inplace ∧
       ∀ e ∈ ex, writeAllowed sh e = false → e ∈ (tailF c sh true orig cur aliased ok0 nw).out := by
   have hmerge : ∀ nw, ∀ e ∈ ex, writeAllowed sh e = false → e ∈ sortData sh (mergeF c sh true cur nw).1 := by
@@ -512,6 +539,174 @@ theorem mergeFixed_verdict_addressed (sh : Shape) (s1 s2 : List Item) :
   simp only [mergeFixed, Bool.not_true, Bool.false_or]
   rw [← hblocked, ← hmissing]
 
+theorem mergeF_fixed (c : UCfg) (hc : c.mergeStrict = false) (sh : Shape) (remote : Bool) (s1 s2 : List Item) :
+    mergeF c sh remote s1 s2 = mergeFixed sh remote s1 s2 := by
+  simp [mergeF, hc]
+
+/-- what a success of the repaired `Merge` means: nothing the write names is missing, no addressed element is
+    unwritable -/
+theorem mergeFixed_success (sh : Shape) (s1 s2 : List Item) (hok : (mergeFixed sh true s1 s2).2 = true) :
+    (∀ b ∈ s2, ∃ a ∈ s1, hashKey sh a = hashKey sh b) ∧
+    (∀ a ∈ s1, addressedBy sh s2 a = true → writeAllowed sh a = true) := by
+  have hb : (s1.any fun a => addressedBy sh s2 a && !writeAllowed sh a) = false ∧
+      (s2.any fun b => !(s1.any fun a => hashKey sh a = hashKey sh b)) = false := by
+    have : ((s1.any fun a => addressedBy sh s2 a && !writeAllowed sh a) ||
+        (s2.any fun b => !(s1.any fun a => hashKey sh a = hashKey sh b))) = false := by
+      simpa [mergeFixed] using hok
+    exact Bool.or_eq_false_iff.mp this
+  refine ⟨fun b hb' => ?_, fun a ha had => ?_⟩
+  · have := List.any_eq_false.mp hb.2 b hb'
+    simp only [Bool.not_eq_true, Bool.not_eq_false', List.any_eq_true, decide_eq_true_eq] at this
+    exact this
+  · have := List.any_eq_false.mp hb.1 a ha
+    simp only [had, Bool.true_and, Bool.not_eq_true, Bool.not_eq_false'] at this
+    exact this
+
+/-- C04, clause 4 for the repaired `Merge`: a remote merge answered with success has, for EVERY incoming item, a
+    stored element with its identifier, and has replaced every addressed element by the overlay of the incoming
+    item (the last one with that identifier) -/
+theorem mergeFixed_success_applied (sh : Shape) (s1 s2 : List Item) (hok : (mergeFixed sh true s1 s2).2 = true) :
+    (∀ b ∈ s2, ∃ a ∈ s1, hashKey sh a = hashKey sh b) ∧
+    ∀ a ∈ s1, ∀ b, lookupLast sh (hashKey sh a) s2 = some b →
+      mergeItem sh true s2 a = updateFields sh true a b ∧ mergeItem sh true s2 a ∈ (mergeFixed sh true s1 s2).1 := by
+  obtain ⟨h1, h2⟩ := mergeFixed_success sh s1 s2 hok
+  refine ⟨h1, fun a ha b hl => ⟨?_, ?_⟩⟩
+  · have : writeAllowed sh a = true := h2 a ha (by simp [addressedBy, hl])
+    simp [mergeItem, hl, this]
+  · simp only [mergeFixed, if_true, List.append_nil, List.mem_map]
+    exact ⟨a, ha, rfl⟩
+
+/-! ### the repaired `deleteFilteredData` -/
+
+/-- does the delete filter leave the item alone -/
+def notHit (c : UCfg) (sh : Shape) (f : Filter) (x : Item) : Bool :=
+  match hitOf c sh f x with
+  | .ok false => true
+  | _ => false
+
+/-- C04, clause 2 for the repaired delete path: the verdict of a remote delete is "no unwritable element is hit" —
+    a function of the elements the filter addresses alone -/
+theorem deleteFilteredF_fixed_verdict (c : UCfg) (hc : c.deleteStrict = false) (sh : Shape) (f : Filter) :
+    ∀ (ex ip out : List Item) (ok : Bool), deleteFilteredF.go c sh true f ex = .ok (ip, out, ok) →
+      ok = ex.all fun x => writeAllowed sh x || notHit c sh f x
+  | [], ip, out, ok, h => by
+    simp only [deleteFilteredF.go, Outcome.ok.injEq, Prod.mk.injEq] at h
+    obtain ⟨_, _, rfl⟩ := h; rfl
+  | x :: xs, ip, out, ok, h => by
+    simp only [deleteFilteredF.go, Bool.and_true, hc, Bool.false_eq_true, if_false] at h
+    by_cases hw : writeAllowed sh x = true
+    · simp only [hw, Bool.not_true, Bool.false_eq_true, if_false] at h
+      cases hm : hitOf c sh f x with
+      | panic s => rw [hm] at h; simp at h
+      | ok hit =>
+        rw [hm] at h
+        simp only at h
+        cases hrec : deleteFilteredF.go c sh true f xs with
+        | panic s => rw [hrec] at h; simp at h
+        | ok t =>
+          obtain ⟨ip', out', ok'⟩ := t
+          rw [hrec] at h
+          simp only [Outcome.ok.injEq, Prod.mk.injEq] at h
+          obtain ⟨_, _, rfl⟩ := h
+          simp [hw, deleteFilteredF_fixed_verdict c hc sh f xs ip' out' ok' hrec]
+    · have hw' : writeAllowed sh x = false := by simpa using hw
+      simp only [hw', Bool.not_false, if_true] at h
+      cases hm : hitOf c sh f x with
+      | panic s => rw [hm] at h; simp at h
+      | ok hit =>
+        rw [hm] at h
+        simp only at h
+        cases hrec : deleteFilteredF.go c sh true f xs with
+        | panic s => rw [hrec] at h; simp at h
+        | ok t =>
+          obtain ⟨ip', out', ok'⟩ := t
+          rw [hrec] at h
+          simp only [Outcome.ok.injEq, Prod.mk.injEq] at h
+          obtain ⟨_, _, rfl⟩ := h
+          rw [deleteFilteredF_fixed_verdict c hc sh f xs ip' out' ok' hrec]
+          cases hit <;> simp [hw', notHit, hm, Bool.and_comm]
+
+/-- … hence two stores with the same addressed (hit or failing-to-decide) elements get the same answer -/
+theorem deleteFilteredF_fixed_irrelevant (c : UCfg) (hc : c.deleteStrict = false) (sh : Shape) (f : Filter)
+    (ex ex' ip out ip' out' : List Item) (ok ok' : Bool)
+    (h : deleteFilteredF.go c sh true f ex = .ok (ip, out, ok))
+    (h' : deleteFilteredF.go c sh true f ex' = .ok (ip', out', ok'))
+    (hsame : ex.filter (fun x => !notHit c sh f x) = ex'.filter (fun x => !notHit c sh f x)) : ok = ok' := by
+  rw [deleteFilteredF_fixed_verdict c hc sh f ex ip out ok h, deleteFilteredF_fixed_verdict c hc sh f ex' ip' out' ok' h']
+  have key : ∀ l : List Item, (l.all fun x => writeAllowed sh x || notHit c sh f x) =
+      ((l.filter fun x => !notHit c sh f x).all fun x => writeAllowed sh x) := by
+    intro l
+    induction l with
+    | nil => rfl
+    | cons x xs ih =>
+      simp only [List.all_cons, List.filter_cons, ih]
+      cases hn : notHit c sh f x <;> simp
+  rw [key ex, key ex', hsame]
+
+/-- … and an element the filter does not hit is still in the result, unchanged (every member) -/
+theorem deleteFilteredF_unaddressed_kept (c : UCfg) (sh : Shape) (remote : Bool) (f : Filter) :
+    ∀ (ex ip out : List Item) (ok : Bool), deleteFilteredF.go c sh remote f ex = .ok (ip, out, ok) → ok = true →
+      ∀ x ∈ ex, notHit c sh f x = true → x ∈ out
+  | [], ip, out, ok, _, _, x, hx, _ => by cases hx
+  | y :: ys, ip, out, ok, h, hok, x, hx, hn => by
+    simp only [deleteFilteredF.go] at h
+    have hrest : ∀ ip' out' ok', deleteFilteredF.go c sh remote f ys = .ok (ip', out', ok') → ok' = true →
+        x ∈ ys → x ∈ out' := fun ip' out' ok' hr ho hm =>
+      deleteFilteredF_unaddressed_kept c sh remote f ys ip' out' ok' hr ho x hm hn
+    split at h
+    · split at h
+      · cases hrec : deleteFilteredF.go c sh remote f ys with
+        | panic s => rw [hrec] at h; simp at h
+        | ok t =>
+          obtain ⟨ip', out', ok'⟩ := t
+          rw [hrec] at h
+          simp only [Outcome.ok.injEq, Prod.mk.injEq] at h
+          obtain ⟨_, _, rfl⟩ := h
+          cases hok
+      · cases hm : hitOf c sh f y with
+        | panic s => rw [hm] at h; simp at h
+        | ok hit =>
+          rw [hm] at h
+          simp only at h
+          cases hrec : deleteFilteredF.go c sh remote f ys with
+          | panic s => rw [hrec] at h; simp at h
+          | ok t =>
+            obtain ⟨ip', out', ok'⟩ := t
+            rw [hrec] at h
+            simp only [Outcome.ok.injEq, Prod.mk.injEq] at h
+            obtain ⟨_, rfl, rfl⟩ := h
+            simp only [Bool.and_eq_true] at hok
+            rcases List.mem_cons.mp hx with rfl | hx'
+            · exact List.mem_cons_self
+            · exact List.mem_cons_of_mem _ (hrest ip' out' ok' hrec hok.1 hx')
+    · cases hm : hitOf c sh f y with
+      | panic s => rw [hm] at h; simp at h
+      | ok hit =>
+        rw [hm] at h
+        simp only at h
+        cases hrec : deleteFilteredF.go c sh remote f ys with
+        | panic s => rw [hrec] at h; simp at h
+        | ok t =>
+          obtain ⟨ip', out', ok'⟩ := t
+          rw [hrec] at h
+          simp only [Outcome.ok.injEq, Prod.mk.injEq] at h
+          obtain ⟨_, rfl, rfl⟩ := h
+          rcases List.mem_cons.mp hx with rfl | hx'
+          · -- the item itself: not hit, so it is kept as it is
+            have hh : hit = false := by
+              simp only [notHit, hm] at hn
+              cases hit <;> simp_all
+            subst hh
+            have hk : delKeep f false = true := by
+              unfold delKeep; cases f.sel <;> cases f.el <;> rfl
+            have hd : delItem c sh remote f false x = x := by
+              unfold delItem; cases f.el <;> simp
+            simp [hk, hd]
+          · have := hrest ip' out' ok' hrec hok hx'
+            split
+            · exact List.mem_cons_of_mem _ this
+            · exact this
+
 /-! ### the repaired in-place paths keep the flag -/
 
 theorem get_restoreFlag (sh : Shape) (f : Nat) (hf : sh.flag = some f) (saved x : Item) (hl : f < x.length) :
@@ -530,5 +725,311 @@ theorem copyNonNilF_keeps_flag (c : UCfg) (hc : c.inplaceAltersFlag = false) (sh
     (hf : sh.flag = some f) (nw x : Item) (hl : f < x.length) : (copyNonNilF c sh true nw x).get f = x.get f := by
   simp only [copyNonNilF, keepsFlag, hc, Bool.not_false, Bool.and_self, if_true]
   exact get_restoreFlag sh f hf x _ (by rw [copyNonNil_length]; exact hl)
+
+/-! ### the flag clause for a whole `UpdateList` call of the member whose in-place paths put the flag back -/
+
+/-- position by position the flag is the same (and an item wide enough to carry the flag stays so) -/
+def FlagSame (f : Nat) : List Item → List Item → Prop
+  | [], [] => True
+  | x :: xs, y :: ys => ((f < x.length → y.get f = x.get f ∧ f < y.length)) ∧ FlagSame f xs ys
+  | _, _ => False
+
+theorem FlagSame.refl (f : Nat) : ∀ l, FlagSame f l l
+  | [] => trivial
+  | _ :: xs => ⟨fun h => ⟨rfl, h⟩, FlagSame.refl f xs⟩
+
+theorem FlagSame.trans (f : Nat) : ∀ {a b c : List Item}, FlagSame f a b → FlagSame f b c → FlagSame f a c
+  | [], [], [], _, _ => trivial
+  | x :: xs, y :: ys, z :: zs, h1, h2 => by
+    refine ⟨fun hx => ?_, FlagSame.trans f h1.2 h2.2⟩
+    obtain ⟨e1, w1⟩ := h1.1 hx
+    obtain ⟨e2, w2⟩ := h2.1 w1
+    exact ⟨e2.trans e1, w2⟩
+  | [], [], _ :: _, _, h2 => by simp [FlagSame] at h2
+  | [], _ :: _, _, h1, _ => by simp [FlagSame] at h1
+  | _ :: _, [], _, h1, _ => by simp [FlagSame] at h1
+  | _ :: _, _ :: _, [], _, h2 => by simp [FlagSame] at h2
+
+/-- every item is wide enough to carry the flag -/
+def Wide (f : Nat) (l : List Item) : Prop := ∀ x ∈ l, f < x.length
+
+theorem FlagSame.wide (f : Nat) : ∀ {a b : List Item}, FlagSame f a b → Wide f a → Wide f b
+  | [], [], _, _ => fun _ hx => by cases hx
+  | x :: xs, y :: ys, h, hw => by
+    intro z hz
+    rcases List.mem_cons.mp hz with rfl | hz'
+    · exact (h.1 (hw x List.mem_cons_self)).2
+    · exact FlagSame.wide f h.2 (fun a ha => hw a (List.mem_cons_of_mem _ ha)) z hz'
+  | [], _ :: _, h, _ => by simp [FlagSame] at h
+  | _ :: _, [], h, _ => by simp [FlagSame] at h
+
+theorem Wide.sublist {f : Nat} {a b : List Item} (h : a.Sublist b) (hw : Wide f b) : Wide f a :=
+  fun x hx => hw x (h.subset hx)
+
+theorem copyNonNilF_flagItem (c : UCfg) (hc : c.inplaceAltersFlag = false) (sh : Shape) (f : Nat) (hf : sh.flag = some f)
+    (nw x : Item) (hl : f < x.length) :
+    (copyNonNilF c sh true nw x).get f = x.get f ∧ f < (copyNonNilF c sh true nw x).length := by
+  refine ⟨copyNonNilF_keeps_flag c hc sh f hf nw x hl, ?_⟩
+  simp only [copyNonNilF, keepsFlag, hc, Bool.not_false, Bool.and_self, if_true, restoreFlag_length, copyNonNil_length]
+  exact hl
+
+theorem removeElements_length (sh : Shape) (el x : Item) : (removeElements sh el x).length = x.length := by
+  unfold removeElements; split <;> simp
+
+theorem delItem_flagItem (c : UCfg) (hc : c.inplaceAltersFlag = false) (sh : Shape) (f : Nat) (hf : sh.flag = some f)
+    (flt : Filter) (hit : Bool) (x : Item) (hl : f < x.length) :
+    (delItem c sh true flt hit x).get f = x.get f ∧ f < (delItem c sh true flt hit x).length := by
+  unfold delItem
+  cases flt.el with
+  | none => exact ⟨rfl, hl⟩
+  | some el =>
+    cases hit with
+    | false => exact ⟨rfl, hl⟩
+    | true =>
+      simp only [keepsFlag, hc, Bool.not_false, Bool.and_self, if_true]
+      exact ⟨get_restoreFlag sh f hf x _ (by rw [removeElements_length]; exact hl),
+        by rw [restoreFlag_length, removeElements_length]; exact hl⟩
+
+theorem copyToSelectedF_flags (c : UCfg) (hc : c.inplaceAltersFlag = false) (sh : Shape) (f : Nat) (hf : sh.flag = some f)
+    (sel nw : Item) :
+    ∀ (ex r : List Item) (b : Bool), copyToSelectedF.go c sh true sel nw ex = .ok (r, b) → FlagSame f ex r
+  | [], r, b, h => by
+    simp only [copyToSelectedF.go, Outcome.ok.injEq, Prod.mk.injEq] at h
+    obtain ⟨rfl, _⟩ := h; trivial
+  | x :: xs, r, b, h => by
+    simp only [copyToSelectedF.go] at h
+    cases hm : selectorMatchF c sh sel x with
+    | panic s => rw [hm] at h; simp at h
+    | ok m =>
+      rw [hm] at h
+      have hrecur : ∀ r' b', copyToSelectedF.go c sh true sel nw xs = .ok (r', b') → FlagSame f (x :: xs) (x :: r') :=
+        fun r' b' hr => ⟨fun hx => ⟨rfl, hx⟩, copyToSelectedF_flags c hc sh f hf sel nw xs r' b' hr⟩
+      cases m with
+      | false =>
+        simp only at h
+        cases hrec : copyToSelectedF.go c sh true sel nw xs with
+        | panic s => rw [hrec] at h; simp at h
+        | ok rb =>
+          obtain ⟨r', b'⟩ := rb
+          rw [hrec] at h
+          simp only [Outcome.ok.injEq, Prod.mk.injEq] at h
+          obtain ⟨rfl, _⟩ := h
+          exact hrecur r' b' hrec
+      | true =>
+        simp only at h
+        split at h
+        · cases hrec : copyToSelectedF.go c sh true sel nw xs with
+          | panic s => rw [hrec] at h; simp at h
+          | ok rb =>
+            obtain ⟨r', b'⟩ := rb
+            rw [hrec] at h
+            simp only [Outcome.ok.injEq, Prod.mk.injEq] at h
+            obtain ⟨rfl, _⟩ := h
+            exact hrecur r' b' hrec
+        · simp only [Outcome.ok.injEq, Prod.mk.injEq] at h
+          obtain ⟨rfl, _⟩ := h
+          exact ⟨fun hx => copyNonNilF_flagItem c hc sh f hf nw x hx, FlagSame.refl f xs⟩
+
+theorem copyToAllF_flags (c : UCfg) (hc : c.inplaceAltersFlag = false) (sh : Shape) (f : Nat) (hf : sh.flag = some f)
+    (nw : Item) : ∀ ex : List Item, FlagSame f ex (copyToAllF c sh true ex nw).1
+  | [] => trivial
+  | x :: xs => by
+    refine ⟨fun hx => ?_, copyToAllF_flags c hc sh f hf nw xs⟩
+    show (if (!writeAllowed sh x && true) = true then x else copyNonNilF c sh true nw x).get f = x.get f ∧
+      f < (if (!writeAllowed sh x && true) = true then x else copyNonNilF c sh true nw x).length
+    split
+    · exact ⟨rfl, hx⟩
+    · exact copyNonNilF_flagItem c hc sh f hf nw x hx
+
+/-- the delete phase: position by position in the caller's array; its result list corresponds one to one to a
+    sub-list of the stored elements with the same flags -/
+theorem deleteFilteredF_flags (c : UCfg) (hc : c.inplaceAltersFlag = false) (sh : Shape) (f : Nat) (hf : sh.flag = some f)
+    (flt : Filter) :
+    ∀ (ex ip out : List Item) (ok : Bool), deleteFilteredF.go c sh true flt ex = .ok (ip, out, ok) →
+      FlagSame f ex ip ∧ ∃ src, src.Sublist ex ∧ FlagSame f src out
+  | [], ip, out, ok, h => by
+    simp only [deleteFilteredF.go, Outcome.ok.injEq, Prod.mk.injEq] at h
+    obtain ⟨rfl, rfl, _⟩ := h
+    exact ⟨trivial, [], List.Sublist.refl _, trivial⟩
+  | x :: xs, ip, out, ok, h => by
+    simp only [deleteFilteredF.go] at h
+    split at h
+    · split at h
+      · cases hrec : deleteFilteredF.go c sh true flt xs with
+        | panic s => rw [hrec] at h; simp at h
+        | ok t =>
+          obtain ⟨ip', out', ok'⟩ := t
+          rw [hrec] at h
+          obtain ⟨i1, src, i2, i3⟩ := deleteFilteredF_flags c hc sh f hf flt xs ip' out' ok' hrec
+          simp only [Outcome.ok.injEq, Prod.mk.injEq] at h
+          obtain ⟨rfl, rfl, _⟩ := h
+          exact ⟨⟨fun hx => ⟨rfl, hx⟩, i1⟩, src, List.Sublist.cons _ i2, i3⟩
+      · cases hm : hitOf c sh flt x with
+        | panic s => rw [hm] at h; simp at h
+        | ok hit =>
+          rw [hm] at h
+          simp only at h
+          cases hrec : deleteFilteredF.go c sh true flt xs with
+          | panic s => rw [hrec] at h; simp at h
+          | ok t =>
+            obtain ⟨ip', out', ok'⟩ := t
+            rw [hrec] at h
+            obtain ⟨i1, src, i2, i3⟩ := deleteFilteredF_flags c hc sh f hf flt xs ip' out' ok' hrec
+            simp only [Outcome.ok.injEq, Prod.mk.injEq] at h
+            obtain ⟨rfl, rfl, _⟩ := h
+            exact ⟨⟨fun hx => ⟨rfl, hx⟩, i1⟩, x :: src, List.Sublist.cons₂ _ i2, ⟨fun hx => ⟨rfl, hx⟩, i3⟩⟩
+    · cases hm : hitOf c sh flt x with
+      | panic s => rw [hm] at h; simp at h
+      | ok hit =>
+        rw [hm] at h
+        simp only at h
+        cases hrec : deleteFilteredF.go c sh true flt xs with
+        | panic s => rw [hrec] at h; simp at h
+        | ok t =>
+          obtain ⟨ip', out', ok'⟩ := t
+          rw [hrec] at h
+          obtain ⟨i1, src, i2, i3⟩ := deleteFilteredF_flags c hc sh f hf flt xs ip' out' ok' hrec
+          simp only [Outcome.ok.injEq, Prod.mk.injEq] at h
+          obtain ⟨rfl, rfl, _⟩ := h
+          have hitem := fun hx => delItem_flagItem c hc sh f hf flt hit x hx
+          refine ⟨⟨hitem, i1⟩, ?_⟩
+          split
+          · exact ⟨x :: src, List.Sublist.cons₂ _ i2, ⟨hitem, i3⟩⟩
+          · exact ⟨src, List.Sublist.cons _ i2, i3⟩
+
+theorem mergeItem_flagItem (sh : Shape) (f : Nat) (hf : sh.flag = some f) (s2 : List Item) (hs2 : Wide f s2)
+    (a : Item) (hl : f < a.length) :
+    (mergeItem sh true s2 a).get f = a.get f ∧ f < (mergeItem sh true s2 a).length := by
+  unfold mergeItem
+  cases hlk : lookupLast sh (hashKey sh a) s2 with
+  | none => exact ⟨rfl, hl⟩
+  | some b =>
+    have hb := hs2 b (lookupLast_mem sh _ s2 b hlk).1
+    simp only
+    split
+    · exact ⟨updateFields_flag sh a b f hf hb, by rw [updateFields_length]; exact hb⟩
+    · exact ⟨rfl, hl⟩
+
+theorem map_mergeItem_flags (sh : Shape) (f : Nat) (hf : sh.flag = some f) (s2 : List Item) (hs2 : Wide f s2) :
+    ∀ s1 : List Item, FlagSame f s1 (s1.map (mergeItem sh true s2))
+  | [] => trivial
+  | x :: xs => ⟨fun hx => mergeItem_flagItem sh f hf s2 hs2 x hx, map_mergeItem_flags sh f hf s2 hs2 xs⟩
+
+/-- the returned list corresponds one to one, up to the order `SortData` gives it, to a sub-list of the stored
+    elements with the same flags -/
+def FlagsKept (f : Nat) (ex out : List Item) : Prop := ∃ src mid, src.Sublist ex ∧ FlagSame f src mid ∧ out.Perm mid
+
+theorem deletePhaseF_flags (c : UCfg) (hc : c.inplaceAltersFlag = false) (sh : Shape) (f : Nat) (hf : sh.flag = some f)
+    (ex : List Item) (fd : Option Filter) (orig cur : List Item) (aliased ok0 : Bool)
+    (h : deletePhaseF c sh true ex fd = .ok (orig, cur, aliased, ok0)) :
+    FlagSame f ex orig ∧ (aliased = true → cur = orig) ∧ ∃ src, src.Sublist ex ∧ FlagSame f src cur := by
+  unfold deletePhaseF at h
+  have hsame : ∀ o c' a k, (Outcome.ok (ex, ex, true, true) : Outcome (List Item × List Item × Bool × Bool)) = .ok (o, c', a, k) →
+      FlagSame f ex o ∧ (a = true → c' = o) ∧ ∃ src, src.Sublist ex ∧ FlagSame f src c' := by
+    intro o c' a k e
+    simp only [Outcome.ok.injEq, Prod.mk.injEq] at e
+    obtain ⟨rfl, rfl, _, _⟩ := e
+    exact ⟨FlagSame.refl f _, fun _ => rfl, ex, List.Sublist.refl _, FlagSame.refl f _⟩
+  cases fd with
+  | none => exact hsame _ _ _ _ h
+  | some flt =>
+    simp only at h
+    split at h
+    · exact hsame _ _ _ _ h
+    · unfold deleteFilteredF at h
+      cases hd : deleteFilteredF.go c sh true flt ex with
+      | panic s => rw [hd] at h; simp at h
+      | ok t =>
+        obtain ⟨ip, out, ok⟩ := t
+        rw [hd] at h
+        obtain ⟨i1, src, i2, i3⟩ := deleteFilteredF_flags c hc sh f hf flt ex ip out ok hd
+        cases ok with
+        | true =>
+          simp only [if_true, Outcome.ok.injEq, Prod.mk.injEq] at h
+          obtain ⟨rfl, rfl, rfl, _⟩ := h
+          exact ⟨i1, fun h => (by cases h), src, i2, i3⟩
+        | false =>
+          simp only [Bool.false_eq_true, if_false, Outcome.ok.injEq, Prod.mk.injEq] at h
+          obtain ⟨rfl, rfl, rfl, _⟩ := h
+          exact ⟨i1, fun _ => rfl, ex, List.Sublist.refl _, i1⟩
+
+theorem tailF_flags (c : UCfg) (hc : c.inplaceAltersFlag = false) (sh : Shape) (f : Nat) (hf : sh.flag = some f)
+    {ex orig cur src : List Item} {aliased : Bool} (ok0 : Bool) (nw : List Item) (hnw : Wide f nw)
+    (hp : FlagSame f ex orig) (ha : aliased = true → cur = orig) (hs : src.Sublist ex) (hc' : FlagSame f src cur) :
+    FlagSame f ex (tailF c sh true orig cur aliased ok0 nw).inplace ∧
+      FlagsKept f ex (tailF c sh true orig cur aliased ok0 nw).out := by
+  have hmerge : ∀ nw, Wide f nw → FlagsKept f ex (sortData sh (mergeF c sh true cur nw).1) := by
+    intro nw hnw
+    refine ⟨src, cur.map (mergeItem sh true nw), hs, FlagSame.trans f hc' (map_mergeItem_flags sh f hf nw hnw cur), ?_⟩
+    rw [mergeF_fst]
+    exact sortData_perm sh _
+  unfold tailF
+  cases nw with
+  | nil => exact ⟨hp, hmerge [] (fun x hx => by cases hx)⟩
+  | cons n0 rest =>
+    simp only
+    split
+    · have hall := copyToAllF_flags c hc sh f hf n0 cur
+      refine ⟨?_, src, _, hs, FlagSame.trans f hc' hall, List.Perm.refl _⟩
+      cases aliased with
+      | true => have := ha rfl; subst this; simpa using FlagSame.trans f hp hall
+      | false => simpa using hp
+    · exact ⟨hp, hmerge _ hnw⟩
+
+/-- C04, clause 1b for the member whose in-place paths put the flag back (`inplaceAltersFlag` off), for a WHOLE
+    remote `UpdateList` call of any shape: position by position the stored array keeps every flag, and the returned
+    list corresponds one to one (up to `SortData`'s order) to a sub-list of the stored elements with the same flags.
+    `Wide`: the incoming items are wide enough to carry the flag (they are values of the list's item type). -/
+theorem updateListF_remote_flags (c : UCfg) (hc : c.inplaceAltersFlag = false) (sh : Shape) (f : Nat)
+    (hf : sh.flag = some f) (ex nw : List Item) (hnw : Wide f nw) (fp fd : Option Filter) (r : Res)
+    (h : updateListF c sh true ex nw fp fd = .ok r) :
+    FlagSame f ex r.inplace ∧ FlagsKept f ex r.out := by
+  unfold updateListF at h
+  cases hd : deletePhaseF c sh true ex fd with
+  | panic s => rw [hd] at h; simp at h
+  | ok t =>
+    obtain ⟨orig, cur, aliased, ok0⟩ := t
+    rw [hd] at h
+    obtain ⟨hp, ha, src, hs, hcur⟩ := deletePhaseF_flags c hc sh f hf ex fd orig cur aliased ok0 hd
+    simp only at h
+    unfold partialPhaseF at h
+    cases fp with
+    | none =>
+      simp only [Outcome.ok.injEq] at h
+      subst h
+      exact tailF_flags c hc sh f hf ok0 nw hnw hp ha hs hcur
+    | some flt =>
+      cases nw with
+      | nil =>
+        simp only at h
+        split at h
+        · simp at h
+        · simp only [Outcome.ok.injEq] at h
+          subst h
+          exact tailF_flags c hc sh f hf ok0 [] hnw hp ha hs hcur
+      | cons n0 rest =>
+        simp only at h
+        cases hsel : flt.sel with
+        | none =>
+          rw [hsel] at h
+          simp only [Outcome.ok.injEq] at h
+          subst h
+          exact ⟨hp, src, cur, hs, hcur, List.Perm.refl _⟩
+        | some sel =>
+          rw [hsel] at h
+          simp only at h
+          unfold copyToSelectedF at h
+          cases hcs : copyToSelectedF.go c sh true sel n0 cur with
+          | panic s => rw [hcs] at h; simp at h
+          | ok rb =>
+            obtain ⟨r', ok1⟩ := rb
+            rw [hcs] at h
+            simp only [Outcome.ok.injEq] at h
+            subst h
+            have hsel' := copyToSelectedF_flags c hc sh f hf sel n0 cur r' ok1 hcs
+            refine ⟨?_, src, r', hs, FlagSame.trans f hcur hsel', List.Perm.refl _⟩
+            cases aliased with
+            | true => have := ha rfl; subst this; simpa using FlagSame.trans f hp hsel'
+            | false => simpa using hp
 
 end Spine
